@@ -450,11 +450,11 @@ func (b *assignmentBuilder) isStructFieldAccessible(structNode bmodel.Node, leaf
 	if !util.IsStructType(structType) {
 		return false
 	}
-	if named, ok := structType.(*types.Named); ok {
-		return !b.isExternalPkg(named.Obj().Pkg()) || ast.IsExported(leafName)
-	}
-	return true
-
+	// An unexported name is visible in the package that declares it and nowhere else,
+	// whatever type it is reached through: a local type defined over an imported struct
+	// and an unnamed struct inside an imported type still have foreign members.
+	obj, _, _ := types.LookupFieldOrMethod(structType, true, b.pkg.Types, leafName)
+	return obj != nil
 }
 
 // canName reports whether the generated code can write down the given type:
